@@ -24,8 +24,18 @@ Flat(idx, sh) == FlatFrom(idx, sh, 1)
 \* Python axis (possibly negative, 0-based) -> 1-based position
 Ax(a, nd) == (a % nd) + 1
 
+\* numpy.pad index map for a length-T axis: position i (any integer) -> source position, -1 for the padding
+\* constant (constant_values, 0 unless given)
+Refl(i, n) == LET m == i % (2 * n) IN IF m < n THEN m ELSE 2 * n - 1 - m
+PadIdx(i, T, mode) ==
+  CASE mode = "edge"      -> IF i < 0 THEN 0 ELSE IF i >= T THEN T - 1 ELSE i
+    [] mode = "constant"  -> IF i < 0 \/ i >= T THEN -1 ELSE i
+    [] mode = "wrap"      -> i % T
+    [] mode = "symmetric" -> Refl(i, T)
+    [] mode = "reflect"   -> IF T = 1 THEN 0 ELSE LET m == i % (2 * T - 2) IN IF m < T THEN m ELSE 2 * T - 2 - m
+
 (* ------------------------------- Stack ---------------------------------- *)
-\* pad: "none" | "edge" | "constant"
+\* pad: "none" | a numpy.pad mode ("edge", "constant", "reflect", "symmetric", "wrap")
 StackT(sh, t, V, pad) == LET T == sh[t] IN
                          IF pad # "none" /\ T % V # 0 THEN T + V - (T % V) ELSE T
 StackShape(sh, a, t, V, pad) ==
@@ -38,7 +48,7 @@ StackSrc(flat, sh, a, t, V, pad) ==
       f == o[a] % sh[a]
       time == o[t] * V + v
       T == sh[t]
-      tt == IF time < T THEN time ELSE IF pad = "edge" THEN T - 1 ELSE -1
+      tt == IF time < T THEN time ELSE PadIdx(time, T, pad)   \* numpy.pad on the right only; -1: the padding constant
   IN IF tt < 0 THEN -1 ELSE Flat([d \in 1..Len(sh) |-> IF d = t THEN tt ELSE IF d = a THEN f ELSE o[d]], sh)
 StackMap(sh, a, t, V, pad) ==
   LET osh == StackShape(sh, a, t, V, pad) IN [i \in 1..Size(osh) |-> StackSrc(i - 1, sh, a, t, V, pad)]
@@ -57,17 +67,9 @@ SumSq(W) == LET S[j \in 0..W] == IF j = 0 THEN 0 ELSE S[j - 1] + 2 * j * j IN S[
 RECURSIVE Pow(_, _)
 Pow(b, e) == IF e = 0 THEN 1 ELSE b * Pow(b, e - 1)
 Den(k, W) == Pow(SumSq(W), k)
-\* numpy.pad index map for a length-T axis: position i (any integer) -> source position, -1 for a constant zero
-Refl(i, n) == LET m == i % (2 * n) IN IF m < n THEN m ELSE 2 * n - 1 - m
-PadIdx(i, T, mode) ==
-  CASE mode = "edge"      -> IF i < 0 THEN 0 ELSE IF i >= T THEN T - 1 ELSE i
-    [] mode = "constant"  -> IF i < 0 \/ i >= T THEN -1 ELSE i
-    [] mode = "wrap"      -> i % T
-    [] mode = "symmetric" -> Refl(i, T)
-    [] mode = "reflect"   -> IF T = 1 THEN 0 ELSE LET m == i % (2 * T - 2) IN IF m < T THEN m ELSE 2 * T - 2 - m
 \* Modes whose padded values are combinations of samples rather than copies of one sample, and depend on the
-\* width w of the extension: "linear_ramp" (from the edge sample down to end value 0, numpy.linspace without the
-\* end point) and "mean" (of the whole axis).  A position is a sequence of <<source position, numerator>> over
+\* width w of the extension: "linear_ramp" (from the edge sample to the end value - source -1, 0 unless given -,
+\* numpy.linspace without the end point) and "mean" (of the whole axis).  A position is a sequence of <<source position, numerator>> over
 \* the common denominator PadDen.
 PadDen(T, mode, w) == CASE mode = "linear_ramp" -> (IF w = 0 THEN 1 ELSE w)
                         [] mode = "mean" -> T
@@ -75,7 +77,7 @@ PadDen(T, mode, w) == CASE mode = "linear_ramp" -> (IF w = 0 THEN 1 ELSE w)
 PadTerms(i, T, mode, w) ==
   IF i >= 0 /\ i < T THEN << <<i, PadDen(T, mode, w)>> >>
   ELSE CASE mode = "linear_ramp" -> LET j == IF i < 0 THEN -i ELSE i - T + 1    \* distance beyond the edge, 1..w
-                                    IN << <<(IF i < 0 THEN 0 ELSE T - 1), w - j>> >>
+                                    IN << <<(IF i < 0 THEN 0 ELSE T - 1), w - j>>, <<-1, j>> >>   \* -1: the end value
          [] mode = "mean" -> [p \in 1..T |-> <<p - 1, 1>>]
          [] OTHER -> << <<PadIdx(i, T, mode), 1>> >>
 RECURSIVE Cat(_, _)
@@ -134,7 +136,7 @@ C15_ShapeRule ==
 ExtVal(x, t, mode, w) ==
   LET T == Len(x) IN
   IF t >= 0 /\ t < T THEN x[t + 1] * PadDen(T, mode, w)
-  ELSE IF mode = "linear_ramp" THEN (IF t < 0 THEN x[1] * (w + t) ELSE x[T] * (w - (t - T + 1)))
+  ELSE IF mode = "linear_ramp" THEN (IF t < 0 THEN x[1] * (w + t) ELSE x[T] * (w - (t - T + 1)))   \* (end value 0)
   ELSE LET S[i \in 0..T] == IF i = 0 THEN 0 ELSE S[i - 1] + x[i] IN S[T]
 C15_WidthDependentModes ==
   \A T \in 1..4 : \A W \in 1..2 : \A k \in 1..2 : \A mode \in {"linear_ramp", "mean"} :
